@@ -116,7 +116,36 @@ def r_plumb(ctx):
 
 
 PRAGMA_OK = {("foreign_keys", "ON"), ("foreign_keys", "1"), ("foreign_keys", "TRUE"),
-             ("foreign_key_check", None)}
+             ("foreign_key_check", None),
+             # the defaults, spelled out
+             ("synchronous", "FULL"), ("synchronous", "2"), ("synchronous", "EXTRA"),
+             ("synchronous", "3"), ("journal_mode", "DELETE"),
+             ("locking_mode", "NORMAL")}
+# per-connection tuning knobs: they change neither what a statement means nor
+# when its effect is durable or atomic, and they write nothing to the file
+PRAGMA_TUNING = {"cache_size", "temp_store", "mmap_size", "busy_timeout", "cache_spill",
+                 "threads", "analysis_limit", "soft_heap_limit", "hard_heap_limit",
+                 "automatic_index", "secure_delete", "optimize"}
+# queries (no value): read-only
+PRAGMA_QUERIES = {"table_info", "table_xinfo", "index_list", "index_info", "database_list",
+                  "integrity_check", "quick_check", "user_version", "schema_version",
+                  "page_count", "freelist_count", "compile_options", "foreign_key_list",
+                  "journal_mode", "synchronous", "foreign_keys", "cache_size", "page_size",
+                  "encoding", "application_id", "data_version"}
+
+
+def pragma_ok(name, value):
+    key = (name, value.upper() if isinstance(value, str) else value)
+    if key in PRAGMA_OK:
+        return True
+    if name in PRAGMA_TUNING:
+        return True
+    if value is None and name in PRAGMA_QUERIES:
+        return True
+    if name in ("table_info", "table_xinfo", "index_list", "index_info",
+                "foreign_key_list", "integrity_check", "quick_check"):
+        return True   # the value is the name of the object asked about
+    return False
 
 
 def r_conn(ctx, rule="R-conn"):
@@ -143,10 +172,10 @@ def r_conn(ctx, rule="R-conn"):
                     nm = e["stmt"].extra["name"]
                     val = e["stmt"].extra["value"]
                     key = (nm, val.upper() if isinstance(val, str) else val)
-                    ok = key in PRAGMA_OK
+                    ok = pragma_ok(nm, val)
                     ctx.ob(rule, "%s: PRAGMA %s" % (e["func"], nm), ok, e,
                            "" if ok else "PRAGMA %s=%s is not in the whitelist" % (nm, val))
-                    if key[0] == "foreign_keys" and ok:
+                    if key[0] == "foreign_keys" and val is not None and ok:
                         fk_on.add(e["handle"])
                 if e["k"] == "setattr" and e["attr"] in ("isolation_level", "autocommit"):
                     ctx.ob(rule, "%s: %s assigned" % (e["func"], e["attr"]), False, e,
